@@ -20,7 +20,7 @@ ASSUMPTIONS = [
 
 
 def shards(tier, seed):
-    return std_shards("C16", tier, seed, 40, 900)
+    return std_shards("C16", tier, seed, 70, 900)
 
 
 def result_key(c):
